@@ -66,7 +66,7 @@ def run_to(ck: Check, case: dict):
         ck.count("to:" + ("in-ball" if d is not None and d <= depth else "beyond-ball<=2D" if reach else "beyond-2D" if d is not None else "unreachable"))
         if d is not None and d == 2 * depth:
             ck.count("to:exactly-2D")
-        st, p = algos.call(MeetInTheMiddle.find_path_to, g, algos.container(case.get("container", "list"), q), r)
+        st, p = algos.call(MeetInTheMiddle.find_path_to, g, algos.container(case.get("container", "list"), q, (gd.n, gd.m) if gd.kind == "mat" else None), r)
         rep = {"case": dict(case, queries=[q], op="to"), "true_distance": d, "ball_depth": depth}
         if st != "ok":
             ck.violation("C05/find_path_to/error", "MITM find_path_to raised: " + p, dict(rep, observed=p))
@@ -94,7 +94,7 @@ def run_to(ck: Check, case: dict):
         elif mres[1] != p:
             ck.count("drift:mitm.to path differs (non-binding)")
         if g.definition.generators_inverse_closed:
-            st, pf = algos.call(MeetInTheMiddle.find_path_from, g, algos.container(case.get("container", "list"), q), r)
+            st, pf = algos.call(MeetInTheMiddle.find_path_from, g, algos.container(case.get("container", "list"), q, (gd.n, gd.m) if gd.kind == "mat" else None), r)
             if st != "ok" or pf is None or ctx.apply_path(q, pf) != tuple(gd.central) or len(pf) != d:
                 ck.violation("C05/find_path_from/invalid", f"MITM find_path_from wrong: {pf}", dict(rep, observed=pf))
         ev = graphs.drain_events()
@@ -123,7 +123,7 @@ def run_between(ck: Check, case: dict):
     ck.count("between:" + ("intersect" if best == 0 else "within-2M" if reach else "beyond-2M" if best is not None else "unreachable"))
     if best is not None and best == 2 * M:
         ck.count("between:exactly-2M")
-    st, res = algos.call(MeetInTheMiddle.find_path_between, g, algos.container(case.get("container", "torch.int64"), S), algos.container(case.get("container", "torch.int64"), T), M)
+    st, res = algos.call(MeetInTheMiddle.find_path_between, g, algos.container(case.get("container", "torch.int64"), S, (gd.n, gd.m) if gd.kind == "mat" else None), algos.container(case.get("container", "torch.int64"), T, (gd.n, gd.m) if gd.kind == "mat" else None), M)
     rep = {"case": dict(case, op="between"), "true_min_distance": best}
     if st != "ok":
         ck.violation("C05/between/error", "find_path_between raised: " + res, dict(rep, observed=res))
